@@ -54,6 +54,7 @@ class Harness:
         N, L = self.N, self.L
         kind = self.kinds[c.choose(len(self.kinds), 'kind')]
         m = SymMgr(N, 0, L, with_cache=False, with_refs=False)
+        m.decl = 'choose' if kind == 'rename' else 'identity'
         m.assume_pre()
         assume_canon_real(m)
         bdd = m.install(self.B)
